@@ -26,6 +26,14 @@ def make_log(dist, B, nblocks, rng):
     out, size, k = [], 0, 0
     target = nblocks * B
     maxmsg = 0
+    if dist in ("cross15", "cross25", "mixed", "multi", "aligned"):
+        # two short messages fill block zero exactly (block-zero analysis wants complete lines there); the long lines
+        # start on the next block's first byte
+        a_ = gen.fmt_ts(gen.BASE, 0, None, 0).encode() + b" a\n"
+        b_ = gen.fmt_ts(gen.BASE, 0, None, 0).encode() + b" " + b"b" * (B - len(a_) - 21) + b"\n"
+        out += [a_, b_]
+        size = len(a_) + len(b_)
+        assert size == B
     while size < target:
         k += 1
         ts = gen.fmt_ts(gen.BASE + k, 0, None, 0).encode()
@@ -39,6 +47,10 @@ def make_log(dist, B, nblocks, rng):
             ts = b"%d" % (gen.BASE + k)
         if dist == "aligned":          # every line exactly one block
             ln = B
+        elif dist == "cross15":        # every line one and a half blocks: every second one crosses a block end and ends on the next
+            ln = B + B // 2
+        elif dist == "cross25":        # two and a half blocks
+            ln = 2 * B + B // 2
         elif dist == "half":           # two lines per block: every second newline lands on a block end
             ln = B // 2
         elif dist in ("short", "reset", "epoch"):
@@ -102,7 +114,7 @@ def run(pid, tier, seed):
             trans += r.generated
 
         decades = [10, 100, 1000] + ([10000] if tier == "thorough" else [4000])
-        dists = ["aligned", "half", "short", "mixed", "multi", "reset", "epoch"]
+        dists = ["aligned", "half", "short", "mixed", "multi", "reset", "epoch", "cross15", "cross25"]
         conts = ["plain", "gz", "bz2", "lz4"] if tier == "thorough" else ["plain", "gz", "lz4"]
         Bs = [64, 256] if tier == "quick" else [64, 100, 256, 1024]
         jobs = []
@@ -145,6 +157,9 @@ def run(pid, tier, seed):
                     cnt[pos // B] = cnt.get(pos // B, 0) + 1
                     pos += len(ln) + 1
                 lpb = max(cnt.values())
+                if not win and not rr.crashed and len(rr.out) != len(blob):
+                    # (not this property's subject, but a series that prints nothing measures nothing)
+                    raise ToolError("C17 series %s B=%d: %d of %d bytes printed -- the generated log is not read through" % (dist, B, len(rr.out), len(blob)))
                 if rr.crashed:
                     out.append((nb, (span, lpb), None, rr))
                 else:
